@@ -107,7 +107,7 @@ func isoTokInt(tok string) int {
 
 func isoExec(st *isoDoc, op Op) (string, string) {
 	st.npos++
-	tok := fmt.Sprintf("%s-T%d", st.name, st.npos)
+	tok := st.name + "-T" + strconv.Itoa(st.npos)
 	return guard(func() string {
 		d := st.doc
 		a := op.Str("a")
@@ -222,6 +222,9 @@ func isoExec(st *isoDoc, op Op) (string, string) {
 var (
 	isoCanonMu    sync.Mutex
 	isoCanonCache = map[string]string{}
+	// isoNoSync is set in the free-running race child: the harness must not synchronise the
+	// document goroutines with each other (a lock would order their accesses and hide races)
+	isoNoSync bool
 )
 
 func isoHash(b []byte) string {
@@ -278,11 +281,14 @@ func isoCanonNode(n *Node, sb *strings.Builder, sortKids bool) {
 // independent reader; attribute order, indentation and map-iteration order do not matter).
 func isoPartDigest(name string, data []byte) string {
 	key := name + "\x00" + string(data)
-	isoCanonMu.Lock()
-	h, ok := isoCanonCache[key]
-	isoCanonMu.Unlock()
-	if ok {
-		return h
+	var h string
+	if !isoNoSync {
+		isoCanonMu.Lock()
+		c, ok := isoCanonCache[key]
+		isoCanonMu.Unlock()
+		if ok {
+			return c
+		}
 	}
 	if strings.HasSuffix(name, ".xml") || strings.HasSuffix(name, ".rels") {
 		root, err := ParseXML(data)
@@ -296,12 +302,14 @@ func isoPartDigest(name string, data []byte) string {
 	} else {
 		h = isoHash(data)
 	}
-	isoCanonMu.Lock()
-	if len(isoCanonCache) > 20000 {
-		isoCanonCache = map[string]string{}
+	if !isoNoSync {
+		isoCanonMu.Lock()
+		if len(isoCanonCache) > 20000 {
+			isoCanonCache = map[string]string{}
+		}
+		isoCanonCache[key] = h
+		isoCanonMu.Unlock()
 	}
-	isoCanonCache[key] = h
-	isoCanonMu.Unlock()
 	return h
 }
 
@@ -335,8 +343,14 @@ func isoPartsProj(parts map[string][]byte) []map[string]interface{} {
 	return out
 }
 
+// setSaved remembers the package last obtained; it is projected when the view is taken.
 func (st *isoDoc) setSaved(b []byte) {
 	st.saved = b
+	st.savedProj = nil
+}
+
+func (st *isoDoc) projectSaved() {
+	b := st.saved
 	p := ReadPkg(b)
 	if p.ZipErr != "" {
 		st.savedProj = []map[string]interface{}{{"k": "!zip", "n": "!zip", "h": isoHash(b)}}
@@ -394,6 +408,9 @@ func isoCount(f func() int) (n int) {
 // the in-memory parts and the package last obtained from ToBytes/Save. It calls no mutating method.
 func isoView(st *isoDoc) map[string]interface{} {
 	d := st.doc
+	if st.savedProj == nil {
+		st.projectSaved()
+	}
 	v := map[string]interface{}{
 		"fnCount": isoCount(d.GetFootnoteCount),
 		"enCount": isoCount(d.GetEndnoteCount),
@@ -491,16 +508,45 @@ func isoProbeHooks() bool {
 
 // ---------------------------------------------------------------- solo baseline
 
+// isoSoloRun is the outcome of one per-document program run alone.
+type isoSoloRun struct {
+	ops   []Op
+	rets  []string
+	views []map[string]interface{}
+}
+
+// A solo run is a function of (document name, program): it is computed once per process.
+var isoSoloMemo = map[string]*isoSoloRun{}
+
+func isoSoloOf(d string, prog []Op) *isoSoloRun {
+	kj, _ := json.Marshal(prog)
+	key := d + "|" + string(kj)
+	if r, ok := isoSoloMemo[key]; ok {
+		return r
+	}
+	document.VerifResetGlobals()
+	st := isoNewDoc(d)
+	r := &isoSoloRun{ops: prog, rets: []string{}, views: []map[string]interface{}{isoView(st)}}
+	for _, op := range prog {
+		ret, _ := isoExec(st, op)
+		r.rets = append(r.rets, ret)
+		r.views = append(r.views, isoView(st))
+	}
+	if len(isoSoloMemo) > 50000 {
+		isoSoloMemo = map[string]*isoSoloRun{}
+	}
+	isoSoloMemo[key] = r
+	return r
+}
+
 func isoSolo(c Case, names []string, progs map[string][]Op, tab *isoIntern, emit Emitter) {
 	for _, d := range names {
-		document.VerifResetGlobals()
-		st := isoNewDoc(d)
-		tab.emit(emit, Ev{"ev": "solo", "case": c.ID, "d": d, "pos": 0, "op": Op{"op": "New", "a": ""}, "ret": "ok", "view": tab.id(isoView(st))})
-		prog := append(append([]Op{}, progs[d]...), isoFinalOp)
-		for k, op := range prog {
-			ret, _ := isoExec(st, op)
-			tab.emit(emit, Ev{"ev": "solo", "case": c.ID, "d": d, "pos": k + 1, "op": op, "ret": ret, "view": tab.id(isoView(st))})
+		r := isoSoloOf(d, append(append([]Op{}, progs[d]...), isoFinalOp))
+		ids := []string{}
+		for _, v := range r.views {
+			ids = append(ids, tab.id(v))
 		}
+		tab.emit(emit, Ev{"ev": "solo", "case": c.ID, "d": d, "ops": r.ops, "rets": r.rets, "views": ids})
 	}
 }
 
